@@ -255,22 +255,26 @@ def schedule_sweep(ctx, mine, quick):
     endpoints and the recorded execution judged by Trace_Conn."""
     import tlc as T2
     from concurrent.futures import ProcessPoolExecutor
-    wd = T2.workdir("net")
-    try:
-        out = os.path.join(wd, "schedules.json")
-        cfgtxt = "INIT GenInit\nNEXT Next\nCONSTANTS\n NDatagrams = %d\n Fates <- %s\n Plans <- PlansDef\nCHECK_DEADLOCK FALSE\n" % (2 if quick else 3, "FatesQuick" if quick else "FatesThorough")
-        g = ctx.mc("MC_Net", cfgtxt, env=dict(OUT_FILE=out), coverage=False, workers=1, count=False, label="Net: schedule space")
-        if not g.ok or not os.path.exists(out):
-            raise Machinery("schedule generation failed: %s" % (g.violation,))
-        scheds = json.load(open(out))["schedules"]
-    finally:
-        shutil.rmtree(wd, ignore_errors=True)
+    # thorough: the product of the two refinements (3 datagrams x 6 fates = 279 936 schedules) is out of reach; each refinement is swept on its own
+    spaces = [(2, "FatesQuick")] if quick else [(3, "FatesQuick"), (2, "FatesThorough")]
+    scheds = []
+    for nd, fates in spaces:
+        wd = T2.workdir("net")
+        try:
+            out = os.path.join(wd, "schedules.json")
+            cfgtxt = "INIT GenInit\nNEXT Next\nCONSTANTS\n NDatagrams = %d\n Fates <- %s\n Plans <- PlansDef\nCHECK_DEADLOCK FALSE\n" % (nd, fates)
+            g = ctx.mc("MC_Net", cfgtxt, env=dict(OUT_FILE=out), coverage=False, workers=1, count=False, label="Net: schedule space (%d datagrams, %s)" % (nd, fates))
+            if not g.ok or not os.path.exists(out):
+                raise Machinery("schedule generation failed: %s" % (g.violation,))
+            scheds += json.load(open(out))["schedules"]
+        finally:
+            shutil.rmtree(wd, ignore_errors=True)
     with ProcessPoolExecutor(16) as ex:
         traces = list(ex.map(_schedule, [(s, ctx.seed) for s in scheds], chunksize=8))
     rej, r = judge(ctx, traces, "Trace_Conn %s schedule sweep (%d TLC-enumerated schedules)" % (mine, len(scheds)), stale=True, ctxdev=True)
     ctx.traces += len(traces) - len({x["tid"] for x in rej})
     ctx.evaluations += sum(len(t) for t in traces)
     ctx.distinct_n += len(scheds)
-    ctx.extra["schedule_sweep"] = "%d schedules (every fate assignment of the first %d datagrams of each side x %d send plans), exhaustive in the bound" % (len(scheds), 2 if quick else 3, 6)
+    ctx.extra["schedule_sweep"] = "%d schedules (every fate assignment of the first datagrams of each side x 6 send plans; spaces %s), exhaustive in each bound" % (len(scheds), spaces)
     ctx.sample(dict(kind="schedule", schedule=scheds[len(scheds) // 2]))
     report(ctx, rej, traces, lambda tid: "schedule %s" % json.dumps(scheds[tid - 1]), mine)
